@@ -1,1 +1,66 @@
-(* C03 -- theorems to be stated here. *)
+(* C03 -- CFB, CFB-8 and OFB compute exactly their defining recurrences, for every cipher E (no
+   hypothesis: E need not be injective), every schedule, in place or buffer to buffer; the
+   decryption direction D of the cipher never enters a data path. *)
+From BM Require Import BlockModes Spec BlockModes_proofs Plumbing.
+
+(* CFB: the object stores s = E(chaining value); with s = E(IV) the outputs are C_i = P_i xor E(C_{i-1}) *)
+Theorem C03_cfb_enc : forall (C : cipher) sched iv cs, sched_total sched = length cs ->
+  run_sched (cfb_enc_block C) cfb_enc_w (cfb_enc_par C) (cfb_init C iv) sched cs =
+  (last (map (c_E C) (cfb_enc_spec (c_E C) iv (map rd_in cs))) (c_E C iv),
+   map2 wr_out cs (cfb_enc_spec (c_E C) iv (map rd_in cs))).
+Proof. intros C sched iv cs H. unfold cfb_init. rewrite cfb_enc_sched by auto. now rewrite <- cfb_enc_spec_st. Qed.
+Print Assumptions C03_cfb_enc.
+
+Theorem C03_cfb_dec : forall (C : cipher) sched iv cs, sched_total sched = length cs ->
+  run_sched (cfb_dec_block C) (cfb_dec_w C) (cfb_dec_par C) (cfb_init C iv) sched cs =
+  (last (map (c_E C) (map rd_in cs)) (c_E C iv), map2 wr_out cs (cfb_dec_spec (c_E C) iv (map rd_in cs))).
+Proof. intros C sched iv cs H. unfold cfb_init. rewrite cfb_dec_sched by auto. now rewrite <- cfb_dec_spec_st. Qed.
+Print Assumptions C03_cfb_dec.
+
+(* CFB-8 over one-byte blocks, and its byte-level reading c_j = p_j xor first_byte(E(S_j)) *)
+Theorem C03_cfb8_enc : forall (C : cipher) sched s cs, sched_total sched = length cs ->
+  run_sched (cfb8_enc_block C) cfb8_enc_w (cfb8_enc_par C) s sched cs =
+  (cfb8_breg s (cfb8_enc_bspec (c_E C) s (map rd_in cs)), map2 wr_out cs (cfb8_enc_bspec (c_E C) s (map rd_in cs))).
+Proof. exact cfb8_enc_sched. Qed.
+Print Assumptions C03_cfb8_enc.
+
+Theorem C03_cfb8_dec : forall (C : cipher) sched s cs, sched_total sched = length cs ->
+  run_sched (cfb8_dec_block C) cfb8_dec_w (cfb8_dec_par C) s sched cs =
+  (cfb8_breg s (map rd_in cs), map2 wr_out cs (cfb8_dec_bspec (c_E C) s (map rd_in cs))).
+Proof. exact cfb8_dec_sched. Qed.
+Print Assumptions C03_cfb8_dec.
+
+Theorem C03_cfb8_bytes : forall (C : cipher),
+  (forall x, length x = c_bs C -> length (c_E C x) = c_bs C) -> 0 < c_bs C ->
+  forall s bytes, length s = c_bs C ->
+  cfb8_enc_bspec (c_E C) s (singles bytes) = singles (cfb8_enc_spec (c_E C) s bytes) /\
+  cfb8_dec_bspec (c_E C) s (singles bytes) = singles (cfb8_dec_spec (c_E C) s bytes) /\
+  cfb8_breg s (singles bytes) = cfb8_reg s bytes.
+Proof. intros C HE Hbs s bytes Hs. repeat split; [apply cfb8_enc_bytes | apply cfb8_dec_bytes | apply cfb8_breg_bytes]; auto. Qed.
+Print Assumptions C03_cfb8_bytes.
+
+(* OFB: both block front-ends are the same function, output = input xor O_1 O_2 .., O_i = E^i(IV) *)
+Theorem C03_ofb : forall (C : cipher) sched iv cs, sched_total sched = length cs ->
+  run_sched (ofb_enc_block C) ofb_w (ofb_enc_par C) iv sched cs =
+    (iter_E (c_E C) (length cs) iv, map2 wr_out cs (ofb_spec (c_E C) iv (map rd_in cs))) /\
+  run_sched (ofb_dec_block C) ofb_w (ofb_dec_par C) iv sched cs =
+    (iter_E (c_E C) (length cs) iv, map2 wr_out cs (ofb_spec (c_E C) iv (map rd_in cs))).
+Proof. intros C sched iv cs H. split; [now apply ofb_enc_sched | now apply ofb_dec_sched]. Qed.
+Print Assumptions C03_ofb.
+
+Theorem C03_ofb_keystream : forall (C : cipher) iv ps i,
+  ofb_spec (c_E C) iv ps = map2 xorb ps (ofb_ks (c_E C) iv (length ps)) /\
+  (i < length ps -> nth i (ofb_ks (c_E C) iv (length ps)) [] = iter_E (c_E C) (S i) iv).
+Proof. intros C iv ps i. split; [apply ofb_spec_ks | apply ofb_ks_nth]. Qed.
+Print Assumptions C03_ofb_keystream.
+
+(* only the encryption direction is used: replacing D changes no data path of CFB, CFB-8, OFB *)
+Theorem C03_only_E : forall bs w E D1 D2,
+  let C1 := mkcipher bs w E D1 in let C2 := mkcipher bs w E D2 in
+  cfb_enc_block C1 = cfb_enc_block C2 /\ cfb_dec_block C1 = cfb_dec_block C2 /\ cfb_dec_par C1 = cfb_dec_par C2 /\
+  cfb_init C1 = cfb_init C2 /\
+  cfb8_enc_block C1 = cfb8_enc_block C2 /\ cfb8_dec_block C1 = cfb8_dec_block C2 /\
+  ofb_enc_block C1 = ofb_enc_block C2 /\ ofb_dec_block C1 = ofb_dec_block C2 /\ ofb_gen C1 = ofb_gen C2 /\
+  buf_apply C1 = buf_apply C2 /\ buf_init C1 = buf_init C2.
+Proof. intros. repeat split; reflexivity. Qed.
+Print Assumptions C03_only_E.
